@@ -5,7 +5,7 @@ import itertools
 from ..runner import Cell
 from ..driver import Finite, assume
 from .common import *  # noqa: F401,F403
-from .c13 import Model, _trans, _rot, _scale, _reflect
+from .c13 import Model, _trans, _rot, _scale, _reflect, apply_op
 
 PROPERTY_ID = "C04"
 FUNCTIONS = [
@@ -25,7 +25,11 @@ BOUNDS = ("The transform dimension is ENUMERATED, not solved: a finite family of
           "invariant 'machine = transform(tracked position)': after the call the interpreted "
           "machine position equals the model image of the independently computed target within "
           "1e-6 on every axis (this contains both clauses: each mentioned word is the image / "
-          "linear image, and every axis that has to change is mentioned).")
+          "linear image, and every axis that has to change is mentioned). Plus TRUE histories from a "
+          "fresh builder: move, transform change, move (G90 or G91), transform change (incl. "
+          "save/restore of stacked and named states, a context manager), move or rapid; the words of "
+          "each move are checked against the transform current at that moment (quick: 10 curated "
+          "pairs of changes, thorough: all 144 pairs of 12 change sequences).")
 ASSUMPTIONS = [
     "transform parameters are concrete (matrices come from numpy/scipy)",
     "all three axes known to builder and machine in the pre-state (None patterns are C01's subject)",
@@ -137,6 +141,103 @@ def _make(spec, entry, rel, argpat):
     return h
 
 
+TSEQ = [(), ("translate",), ("rotate-z",), ("scale-xyz",), ("pivot", "rotate-x"), ("save-a", "translate"),
+        ("restore-a",), ("save", "rotate-z"), ("restore",), ("save-a", "restore-a", "translate"),
+        ("ctx",), ("reflect",)]
+
+
+def _check_words(blocks, model, origin, target, rel, ctx, what):
+    """Word-level clause of the property under the transform that is current NOW: each mentioned
+    word is the image (G90) / the linear image of the displacement (G91), and every axis whose image
+    changes is mentioned."""
+    o, t = model.image(origin), model.image(target)
+    mentioned = {}
+    for w in blocks:
+        if w.letter in "XYZ":
+            mentioned[w.letter] = w.value
+    for i, a in enumerate("XYZ"):
+        exp = t[i] - o[i] if rel else t[i]
+        if a in mentioned:
+            d = mentioned[a] - exp
+            if d > TOL or -d > TOL:
+                return V(f"{what}-word-is-not-the-image-of-the-target",
+                         lambda: f"{a}={mentioned[a]!r}, expected {exp!r}; {ctx()}")
+        else:
+            d = t[i] - o[i]
+            if d > TOL or -d > TOL:
+                return V(f"{what}-axis-that-must-change-not-mentioned",
+                         lambda: f"axis {a} must go {o[i]!r} -> {t[i]!r}; {ctx()}")
+    return None
+
+
+def _make_history(t1, t2, rel, second):
+    """A TRUE history from a freshly constructed builder: move to a known point, change the
+    transform, move, change the transform again (including save/restore of named and stacked
+    states), move again. The words of every move are checked against the transform current at
+    that moment."""
+    from gscrib import GCodeBuilder
+    from ..fixture import Rec
+
+    def h(a: Finite, b: Finite, c: Finite, d: Finite):
+        from ..shims import TOKENS
+        px, py, pz = 1.5, -2.5, 3.25          # the first move only establishes a known point
+        for v in (a, b, c, d):
+            assume(v >= -1000.0)
+            assume(v <= 1000.0)
+        if MODE.symbolic:
+            TOKENS.clear()
+        g = GCodeBuilder(line_endings="\\n")
+        rec = Rec()
+        g.add_writer(rec)
+        model = Model()
+        g.move(x=px, y=py, z=pz)
+        pos = (px, py, pz)
+        log = ["move(x,y,z)"]
+        ctx = lambda: f"history {log} values p={(px, py, pz)!r} a={a!r} b={b!r} c={c!r} d={d!r}; output={rec.text()!r}"  # noqa: E731
+        for k, (tseq, args, entry) in enumerate(((t1, (a, b, None), "move"), (t2, (c, None, d), second))):
+            for op in tseq:
+                r = apply_op(op, g, model, lambda label: None)
+                log.append(op)
+                if r[0] == "inner":
+                    return r[1]
+                if r[0] != r[1]:
+                    return V("history-transform-operation-exception-mismatch", lambda: f"{op}: {r!r}; {ctx()}")
+            if k == 0 and rel:
+                g.set_distance_mode("relative")
+                log.append("G91")
+            n_before = len(split_lines(rec.text()))
+            kw = {n: v for n, v in zip("xyz", args) if v is not None}
+            log.append(f"{entry}({','.join(kw)})")
+            e = attempt(getattr(g, entry), **kw)
+            if e is not None:
+                msg = f"{exc_name(e)}: {e}"
+                return V("history-unexpected-exception", lambda: f"{msg}; {ctx()}")
+            if rel:
+                target = tuple(p + (v if v is not None else 0) for p, v in zip(pos, args))
+            else:
+                target = tuple(v if v is not None else p for p, v in zip(pos, args))
+            lines = split_lines(rec.text())[n_before:]
+            if len(lines) != 1:
+                return V("history-unexpected-line-count", ctx)
+            try:
+                blocks = RefMachine(tokens()).run_line(lines[0])
+            except Malformed as mf:
+                return V("history-malformed-output", str(mf))
+            v = _check_words(blocks, model, pos, target, rel, ctx, "history")
+            if v is not None:
+                return v
+            got = g.position
+            for i in range(3):
+                dd = got[i] - target[i]
+                if dd > TOL or -dd > TOL:
+                    return V("history-tracked-position-wrong",
+                             lambda: f"builder reports {tuple(got)!r}, requested {target!r}; {ctx()}")
+            pos = target
+        reached("move")
+        return None
+    return h
+
+
 def specs(tier):
     out = [(a,) for a in ATOMS if a != "pivot"]
     out += [("pivot", a) for a in PIVOT_ABLE]
@@ -170,4 +271,19 @@ def cells(tier):
                             + "".join("n" if a else "-" for a in argpat))
                     out.append(Cell(name, _make(spec, entry, rel, argpat),
                                     budget_s=240 if quick else 900, entry=f"GCodeBuilder.{entry}"))
+    curated = [(("translate",), ()), ((), ("rotate-z",)), (("rotate-z",), ("translate",)),
+               (("scale-xyz",), ("pivot", "rotate-x")), (("save-a", "translate"), ("restore-a",)),
+               (("save-a", "restore-a", "translate"), ("restore-a",)), (("save", "rotate-z"), ("restore",)),
+               (("ctx",), ("translate",)), (("pivot", "rotate-x"), ("scale-xyz",)),
+               (("save-a", "translate"), ("save-a", "restore-a", "translate"))]
+    pairs = curated if quick else [(x, y) for x in TSEQ for y in TSEQ]
+    for t1, t2 in pairs:
+        for rel in (False, True):
+            for second in ("move", "rapid"):
+                if quick and second == "rapid" and not rel:
+                    continue
+                name = (f"history|{'+'.join(t1) or 'id'}|{'rel' if rel else 'abs'}|move|"
+                        f"{'+'.join(t2) or 'same'}|{second}")
+                out.append(Cell(name, _make_history(t1, t2, rel, second), budget_s=300 if quick else 900,
+                                must_reach=("move",), entry="GCodeBuilder (history from a fresh builder)"))
     return out
